@@ -336,6 +336,18 @@ impl Run {
         S: Strategy<Value = C> + Sync,
         F: Fn(&C, &mut Obs) -> Result<(), String> + Sync,
     {
+        self.prop_factory(name, rule, labels, || &strategy, cases, f)
+    }
+
+    /// Same as `prop`, for strategies that are not `Sync` (boxed strategies): every shard builds
+    /// its own instance through `make`.
+    pub fn prop_factory<C, S, G, F>(&mut self, name: &str, rule: &str, labels: &[&str], make: G, cases: u64, f: F)
+    where
+        C: Serialize + DeserializeOwned + std::fmt::Debug + Clone + Send,
+        S: Strategy<Value = C>,
+        G: Fn() -> S + Sync,
+        F: Fn(&C, &mut Obs) -> Result<(), String> + Sync,
+    {
         let t0 = Instant::now();
         if let Mode::Replay { check, case } = &self.mode {
             if check != name {
@@ -388,7 +400,7 @@ impl Run {
         let id = self.id.clone();
         std::thread::scope(|sc| {
             for shard in 0..shards {
-                let (abort, results, strategy, f, id) = (&abort, &results, &strategy, &f, &id);
+                let (abort, results, make, f, id) = (&abort, &results, &make, &f, &id);
                 std::thread::Builder::new()
                     .stack_size(64 << 20)
                     .spawn_scoped(sc, move || {
@@ -413,7 +425,8 @@ impl Run {
                             s
                         });
                         let failed = Cell::new(false);
-                        let res = runner.run(strategy, |c: C| {
+                        let strategy = make();
+                        let res = runner.run(&strategy, |c: C| {
                             if !failed.get() && abort.load(Ordering::Relaxed) {
                                 return Ok(());
                             }
